@@ -11,7 +11,7 @@ import tempfile
 import zlib
 
 from engine import REPO, gen_states, pool_map
-from readers import read_text, run_cli, split_gfa, write_text
+from readers import read_text, run_cli, split_gfa, write_text, workdir
 
 
 def seq_of(nid, ln):
@@ -130,7 +130,7 @@ def one_run(d, tag, lines, order, by_chrom, withseq, gz, variant, hashseed=None,
 def run_session(job):
     sid, st, mode, seed, opts = job
     rnd = random.Random(seed)
-    d = tempfile.mkdtemp(prefix="chain_")
+    d = workdir("chain_", sid)
     try:
         decorate = mode == "C07"
         S, L, other = build_lines(st, decorate, rnd)
